@@ -38,9 +38,12 @@ impl Payload for DTok {
     fn id(&self) -> u64 { self.id }
     fn valid(&self) -> bool { self.chk == chk_of(self.id) }
 }
+/// destructor runs on real payloads (id != 0, intact check word), counted whether or not the tracker is enabled
+pub static RAW_DROPS: AtomicU64 = AtomicU64::new(0);
 impl Drop for DTok {
     fn drop(&mut self) {
         let addr = self as *const DTok as usize;
+        if self.id != 0 && self.chk == chk_of(self.id) { RAW_DROPS.fetch_add(1, SeqCst); }
         tracker().dropped(self.id, self.chk, addr);
         // poison, so a later read or second drop of the same storage is recognisable
         // (not under Miri: OgreUnique / OgreArc keep a shared reference to the payload alive across `dealloc`, so a write from inside the destructor trips
